@@ -397,3 +397,129 @@ try:
         return b
 except ImportError:  # pragma: no cover
     pass
+
+
+# =================================================================================================================
+# A-pickle / A-fs: file system, locks and pickle as adversarial environments (C18)
+# =================================================================================================================
+import os as _os
+import pickle as _pickle
+
+try:
+    import filelock as _filelock
+except ImportError:  # pragma: no cover
+    _filelock = None
+
+
+class _LockCtx(ExtObject):
+    def __init__(self, path: Any):
+        self.path = path
+
+    def vf_call(self, it: Any, name: str, args: list, kwargs: dict, f: Any) -> Any:
+        held = it.p.ghost.setdefault("lock.held", [])
+        if name == "__enter__":
+            if it.p.choose(2, "filelock-timeout") == 1:
+                raise PyRaise(SExc(_filelock.Timeout, ()))
+            held.append(self.path)
+            return self
+        if name == "__exit__":
+            if self.path in held:
+                held.remove(self.path)
+            return False
+        raise Unsupported(f"FileLock.{name}")
+
+
+class _FileCtx(ExtObject):
+    def __init__(self, path: Any, mode: str):
+        self.path, self.mode = path, mode
+
+    def vf_call(self, it: Any, name: str, args: list, kwargs: dict, f: Any) -> Any:
+        if name == "__enter__":
+            return self
+        if name == "__exit__":
+            return False
+        raise Unsupported(f"file.{name}")
+
+
+if _filelock is not None:
+    @model(_filelock.FileLock)
+    def _m_filelock(it: Any, args: list, kwargs: dict, f: Any) -> Any:
+        _use(it, "filelock.FileLock")
+        return _LockCtx(args[0])
+
+
+@model(open)
+def _m_open(it: Any, args: list, kwargs: dict, f: Any) -> Any:
+    path = args[0]
+    mode = kwargs.get("mode", args[1] if len(args) > 1 else "r")
+    _use(it, "open")
+    # ghost permission: a cache file is only opened while its lock is held
+    if isinstance(path, str) and path.endswith(".cache"):
+        held = it.p.ghost.get("lock.held", [])
+        it.p.oblige(f"lock-held@open({mode})", (path + ".lock") in held, note="cache file opened without holding its lock", replayable=False)
+    if it.p.choose(2, "open-oserror") == 1:
+        raise PyRaise(SExc(FileNotFoundError if "r" in mode else PermissionError, ()))
+    return _FileCtx(path, mode)
+
+
+PICKLE_RAISES = (EOFError, _pickle.UnpicklingError, AttributeError, ImportError, IndexError, ValueError, KeyError, TypeError, MemoryError,
+                 UnicodeDecodeError, ModuleNotFoundError)
+
+
+@model(_pickle.load)
+def _m_pickle_load(it: Any, args: list, kwargs: dict, f: Any) -> Any:
+    """A-pickle: on arbitrary file content pickle.load raises any of the documented (and observed) exceptions or returns any object:
+    a foreign one, or one of the expected classes with arbitrary field values."""
+    from .registry import OpaqueValue
+    from .sym import SObj
+
+    _use(it, "pickle.load")
+    p = it.p
+    n = len(PICKLE_RAISES)
+    d = p.choose(n + 3, "pickle.load")
+    if d < n:
+        raise PyRaise(SExc(PICKLE_RAISES[d], ()))
+    if d == n:
+        return OpaqueValue("foreign-object")
+    import spsdk.utils.database as dbm
+
+    if d == n + 1:
+        o = SObj(dbm.QuickDatabase, {"db_hash": p.fresh_bytes("cached_hash")}, name="cached_quick_db")
+        p.ghost["pickle.loaded"] = o
+        return o
+    o = SObj(dbm.Database.DatabaseData, {"db_hash": p.fresh_bytes("cached_hash"), "cfg_cache": {}, "defaults": OpaqueValue("cached-defaults")},
+             name="cached_db_data")
+    p.ghost["pickle.loaded"] = o
+    return o
+
+
+@model(_pickle.dump)
+def _m_pickle_dump(it: Any, args: list, kwargs: dict, f: Any) -> Any:
+    _use(it, "pickle.dump")
+    it.p.ghost["pickle.dumped"] = args[0]
+    if it.p.choose(2, "pickle.dump-fails") == 1:
+        raise PyRaise(SExc(OSError, ()))
+    return None
+
+
+@model(_os.path.exists)
+def _m_exists(it: Any, args: list, kwargs: dict, f: Any) -> Any:
+    _use(it, "os.path.exists")
+    return it.p.fresh_bool("exists")
+
+
+@model(_os.remove)
+def _m_remove(it: Any, args: list, kwargs: dict, f: Any) -> Any:
+    _use(it, "os.remove")
+    if it.p.choose(2, "os.remove-fails") == 1:
+        raise PyRaise(SExc(FileNotFoundError, ()))
+    it.p.ghost.setdefault("fs.removed", []).append(args[0])
+    return None
+
+
+@model(_os.makedirs)
+def _m_makedirs(it: Any, args: list, kwargs: dict, f: Any) -> Any:
+    _use(it, "os.makedirs")
+    if it.p.choose(2, "os.makedirs-fails") == 1:
+        raise PyRaise(SExc(PermissionError, ()))
+    return None
